@@ -108,7 +108,7 @@ class AstGen:
             return ["ilist", [r.randrange(6) for _ in range(r.randrange(0, 4))]]
         if r.random() < 0.3:
             return ["list", [self.int_(d - 1) for _ in range(r.randrange(1, 4))]]
-        v = r.choice(["v", "w", "v"])
+        v = r.choice(["v", "w", "v", "v", "f", "g", "p"])
         src = self.list_(d - 1)
         self.vars.append(v)
         try:
@@ -139,7 +139,7 @@ class AstGen:
         if k == 9:
             return ["cond", self.bool_(d - 1), self.bool_(d - 1), self.bool_(d - 1)]
         if k == 10:
-            v = r.choice(["v", "w", "v"])
+            v = r.choice(["v", "w", "v", "v", "f", "g", "p"])
             src = self.list_(d - 1)
             self.vars.append(v)
             try:
@@ -194,7 +194,8 @@ def generate(seed: int, tier: str = "quick") -> Dict[str, Any]:
         kinds = {}
         for n in names:
             pool = ["module_def", "nested_def"] if style == "list" else \
-                ["module_def", "nested_def", "lambda", "instance", "bound_method", "partial"]
+                ["module_def", "nested_def", "lambda", "instance", "bound_method", "partial",
+                 "unhashable_instance", "unhashable_bound_method"]
             kinds[n] = rw.choice(pool)
         # a program *without* the override after one with it: drop the shadowing names sometimes
         supplied = [n for n in names if not (n in SHADOW and i > 0 and rw.random() < 0.6)]
@@ -214,6 +215,10 @@ def generate(seed: int, tier: str = "quick") -> Dict[str, Any]:
             "kinds": {n: kinds[n] for n in supplied},
             "faults": faults,
             "empty_as": rw.choice(["none", "empty"]) if not supplied else "n/a",
+            # variables in the evaluation data that are spelled like functions of the program:
+            # functions and variables live in different namespaces, a call must still reach the function
+            "bindings": ({n: rw.choice([10, 0, 3]) for n in rw.sample(names, rw.randrange(1, len(names) + 1))}
+                         if names and rw.random() < 0.2 else {}),
         })
     return {"prop": PROP, "seed": seed, "cfg": cfg, "programs": programs}
 
@@ -554,7 +559,8 @@ def exec_programs(trace: Dict[str, Any]) -> Dict[str, Any]:
 
         def host() -> Any:
             env = celpy.Environment(runner_class=runner)
-            return env.program(env.compile(text), functions=_functions_for(prog)).evaluate({})
+            return env.program(env.compile(text), functions=_functions_for(prog)).evaluate(
+                {k: celpy.celtypes.IntType(v) for k, v in prog.get("bindings", {}).items()})
 
         fp, _ = kit.outcome(host)
         rec["fp"] = fp
@@ -564,7 +570,8 @@ def exec_programs(trace: Dict[str, Any]) -> Dict[str, Any]:
 
         def pure() -> Any:
             env = celpy.Environment(runner_class=runner)
-            return env.program(env.compile(sub_text)).evaluate({})
+            return env.program(env.compile(sub_text)).evaluate(
+                {k: celpy.celtypes.IntType(v) for k, v in prog.get("bindings", {}).items()})
 
         fp2, _ = kit.outcome(pure)
         rec["sub_fp"] = fp2
@@ -926,8 +933,9 @@ def sample_view(trace: Dict[str, Any]) -> Dict[str, Any]:
 
 RULE = ("a case is a history of 1-4 programs with host calls (global/method syntax, 0-3 arguments, "
         "nested in && || ! ?: == and map/all/exists bodies) x supply style (list/dict) x callable "
-        "kind (module-level def, nested def, lambda, callable object, bound method, partial, name "
-        "shadowing a built-in) x runner class x fault plan at the host seam (returned CELEvalError, "
+        "kind (module-level def, nested def, lambda, callable object (also unhashable), bound method "
+        "(also of an unhashable object), partial, name shadowing a built-in; variables and macro "
+        "variables spelled like functions) x runner class x fault plan at the host seam (returned CELEvalError, "
         "raised ValueError/TypeError and subclasses, unbound name); non-trivial = at least one host "
         "stub was actually reached; distinct = distinct (expression shape, supply style, callable "
         "kinds, runner, fault vector) tuples among non-trivial programs")
